@@ -1,5 +1,5 @@
 //@@ UNIT LEX
-//@@ RLIMIT 30
+//@@ RLIMIT 40
 // Unit LEX — src/parse/lex/state.rs (whole state machine) + Lex::new (token.rs).
 // Function bodies are copied verbatim from /repo on every run.
 #![allow(unused_imports, dead_code, unused_variables, non_snake_case, unused_mut)]
